@@ -6,7 +6,7 @@
    correspondence is the check); the theorems below cover the algorithms whose
    algorithm matters and the capacity/byte conventions.  All statements are for
    all operands (no size bounds). *)
-From Coq Require Import List ZArith Znumtheory Bool.
+From Coq Require Import List ZArith Znumtheory Bool Zeuclid.
 Import ListNotations.
 Require Import V.base.Bytes V.model.NumTheory V.proofs.NumTheory_proofs.
 Local Open Scope Z_scope.
@@ -23,6 +23,17 @@ Theorem C17_crt_recombine_correct : forall p q qinv cap mp mq,
   (forall r', 0 <= r' < p * q -> r' mod p = mp mod p -> r' mod q = mq -> r' = r).
 Proof. exact crt_recombine_correct. Qed.
 Print Assumptions C17_crt_recombine_correct.
+
+(* ---- crt_multi.go RecombineSerial (Garner, any number of factors): whenever it
+   returns (all inverses exist, i.e. the factors are pairwise coprime) and the
+   first residue is reduced, the result lies below the product of the factors
+   and has every given residue *)
+Theorem C17_crt_multi_serial_correct : forall ps rs y,
+  crt_multi_serial ps rs = Some y -> Forall (fun p => 0 < p) ps ->
+  (match ps, rs with p0 :: _, r0 :: _ => 0 <= r0 < p0 | _, _ => True end) ->
+  0 <= y < prodl ps /\ Forall2 (fun p r => y mod p = r mod p) ps rs.
+Proof. exact crt_multi_serial_correct. Qed.
+Print Assumptions C17_crt_multi_serial_correct.
 
 (* ---- modular inverse: non-invertibility is reported exactly when it holds *)
 Theorem C17_modinv_iff_coprime : forall x m, 1 < m ->
@@ -157,6 +168,28 @@ Theorem C17_mod_symmetric_spec : forall x m, 0 < m ->
 Proof. exact mod_symmetric_spec. Qed.
 Print Assumptions C17_mod_symmetric_spec.
 
+(* ---- division conventions: EuclideanDiv has 0 <= r < |d| (unique), Div truncates *)
+Theorem C17_eucdiv_spec : forall a d, d <> 0 ->
+  a = d * ZEuclid.div a d + ZEuclid.modulo a d /\ 0 <= ZEuclid.modulo a d < Z.abs d.
+Proof. exact eucdiv_spec. Qed.
+Print Assumptions C17_eucdiv_spec.
+
+Theorem C17_eucdiv_unique : forall a d q r, d <> 0 -> a = d * q + r -> 0 <= r < Z.abs d ->
+  q = ZEuclid.div a d /\ r = ZEuclid.modulo a d.
+Proof. exact eucdiv_unique. Qed.
+Print Assumptions C17_eucdiv_unique.
+
+Theorem C17_truncdiv_spec : forall a d, d <> 0 ->
+  a = d * Z.quot a d + Z.rem a d /\ Z.abs (Z.rem a d) < Z.abs d /\ 0 <= Z.rem a d * a.
+Proof. exact truncdiv_spec. Qed.
+Print Assumptions C17_truncdiv_spec.
+
+(* ---- rationals: the canonical form has a positive denominator, lowest terms, same value *)
+Theorem C17_rat_canon_spec : forall a b, b <> 0 ->
+  let '(n, d) := rat_canon a b in 0 < d /\ Z.gcd n d = 1 /\ n * b = a * d.
+Proof. exact rat_canon_spec. Qed.
+Print Assumptions C17_rat_canon_spec.
+
 (* ---- byte conversions round trip *)
 Theorem C17_be_value_be_bytes : forall k n, 0 <= k -> 0 <= n < 256 ^ k -> be_valueZ (be_bytesZ k n) = n.
 Proof. exact be_valueZ_be_bytesZ. Qed.
@@ -175,6 +208,11 @@ Example C17_nonvacuous_crt :
   crt_precompute 7 11 = Some 2 /\ Z.gcd 7 11 = 1 /\ 7 * 11 <= pow2 7 /\
   crt_recombine 7 11 2 7 3 5 = 38 /\ 38 mod 7 = 3 /\ 38 mod 11 = 5.
 Proof. vm_compute. repeat split; discriminate. Qed.
+
+Example C17_nonvacuous_crt_multi :
+  crt_multi_serial [3; 5; 7; 11] [2; 3; 2; 9] = Some 548 /\ crt_multi_parallel [3; 5; 7; 11] [2; 3; 2; 9] = Some 548 /\
+  crt_multi_serial [3; 6] [1; 1] = None.
+Proof. vm_compute. repeat split. Qed.
 
 Example C17_nonvacuous_modinv :
   modinv 3 7 = Some 5 /\ modinv 6 9 = None /\ modinv (2^200 + 1) (2^521 - 1) <> None.
